@@ -495,6 +495,10 @@ def coerce(value, t, structure):
             return _dt.datetime.fromisoformat(value.replace("Z", "+00:00"))
         if t is bytes and isinstance(value, str):
             return value.encode()
+        if t is _uuid.UUID and isinstance(value, str):
+            return _uuid.UUID(value)
+        if t is float and isinstance(value, int) and not isinstance(value, bool):
+            return float(value)
     return value
 
 
